@@ -20,6 +20,25 @@ func MapKeys[M ~map[K]V, K comparable, V any](m M) []K {
 	}
 	if len(keys) > 1 {
 		sortKeys(keys)
+		if s := S; s != nil && s.MapOrder && s.cur != nil && !s.over {
+			// Go iterates a map from a random position: the tape rotates (and sometimes reverses) the
+			// canonical order, so code that depends on "which entry comes first" sees several orders
+			n := len(keys)
+			if s.Tape.Chance(0.15) {
+				r := 1 + s.Tape.Choose(2*n-1)
+				rot := r % n
+				out := make([]K, 0, n)
+				out = append(out, keys[rot:]...)
+				out = append(out, keys[:rot]...)
+				if r >= n {
+					for i, j := 0, n-1; i < j; i, j = i+1, j-1 {
+						out[i], out[j] = out[j], out[i]
+					}
+				}
+				s.Probes["map-order-permuted"]++
+				return out
+			}
+		}
 	}
 	return keys
 }
